@@ -15,6 +15,12 @@ case kinds
                                          via = "path": every distinct text has its OWN file, written once and left untouched, and is
                                          read by name each time (an unchanged file parsed again is still a new parse: nothing handed
                                          to a caller may be kept and handed out again, whole or in part)
+  handles    {"texts", "mode"}           every text is written to its own file and the files are read one after the other through open
+                                         handles in one process; each call returns the parse of ITS file's content (nothing may be
+                                         remembered per handle object: a released handle's address is given to a later handle).
+                                         mode: with (for p: with open(p) as fh) / drop (parse_file(open(p))) / keep (handles stay alive)
+                                         / stringio (io.StringIO objects, dropped) / rewind (ONE handle, re-written and rewound) /
+                                         mixed (paths, dropped handles and StringIO objects alternate)
 The dot-bracket of a strand-notation complex is compared up to blanks."""
 import copy, inspect, json, os, subprocess, sys, tempfile, warnings
 warnings.simplefilter("ignore")
@@ -66,6 +72,120 @@ def norm_tree(t):
 
 def norm(res):
     return [norm_tree(t) for t in res] if isinstance(res, list) else res
+
+HANDLES_PROGRAM = """import io, os, tempfile
+from dsdobjects.dsdparser import parse_%(dialect)s_string as ps, parse_%(dialect)s_file as pf
+texts, mode = %(texts)r, %(mode)r
+def run(f, *a):
+    try: return f(*a)
+    except Exception as e: return type(e).__name__
+tmp = tempfile.mkdtemp(); paths = []
+for j, t in enumerate(texts):
+    paths.append(os.path.join(tmp, 'f%%d.txt' %% j)); open(paths[-1], 'wb').write(t.encode('utf-8'))
+released, spare = set(), []
+def reopen(p):
+    # a handle at the address of one that was read and released (what CPython does sooner or later in a batch loop)
+    for _ in range(48):
+        fh = open(p, encoding='utf-8')
+        if id(fh) in released or not released: break
+        fh.close(); spare.append(fh)    # stays allocated: the next one gets another address
+    else: fh = open(p, encoding='utf-8')
+    released.add(id(fh)); return fh
+def burst(p):
+    # the first file is read through several handles that are open at the same time and released together
+    hs = [open(p, encoding='utf-8') for _ in range(16)]
+    for fh in hs: run(pf, fh); released.add(id(fh)); fh.close()
+if mode in ('with', 'drop', 'mixed'): burst(paths[0])
+def via_with(j):
+    with reopen(paths[j]) as fh: return run(pf, fh)
+def via_rewind(j, fh=open(os.path.join(tmp, 'one.txt'), 'w+', encoding='utf-8', newline='')):
+    fh.seek(0); fh.truncate(); fh.write(texts[j]); fh.flush(); fh.seek(0); return run(pf, fh)
+kept = []
+def via_keep(j):
+    kept.append(open(paths[j], encoding='utf-8')); return run(pf, kept[-1])
+how = {'with': via_with, 'drop': lambda j: run(pf, reopen(paths[j])), 'keep': via_keep,
+       'stringio': lambda j: run(pf, io.StringIO(texts[j])), 'rewind': via_rewind, 'path': lambda j: run(pf, paths[j])}
+for j, t in enumerate(texts):
+    m = ['path', 'drop', 'stringio', 'with'][j %% 4] if mode == 'mixed' else mode
+    want = run(ps, t if m in ('stringio', 'rewind') else open(paths[j], encoding='utf-8').read())
+    got = how[m](j)
+    print(got == want, m, repr(t), got, 'content parses as', want)
+"""
+
+
+def handles_case(c, dialect, parse_string, parse_file, run):
+    """files read one after the other through open handles parse like their content"""
+    import io, shutil
+    texts, mode = c["texts"], c.get("mode", "with")
+    tmp = tempfile.mkdtemp(prefix="c13_handles_")
+    try:
+        paths, content = [], []
+        for j, t in enumerate(texts):
+            paths.append(os.path.join(tmp, "f%d.txt" % j))
+            with open(paths[-1], "wb") as f:
+                f.write(t.encode("utf-8"))
+            with open(paths[-1], encoding="utf-8") as f:
+                content.append(f.read())
+        kept, released, spare = [], set(), []
+
+        def reopen(p):
+            """a handle at the address of one that was read and released (what CPython does sooner or later in a batch loop)"""
+            for _ in range(48):
+                fh = open(p, encoding="utf-8")
+                if id(fh) in released or not released:
+                    break
+                fh.close()
+                spare.append(fh)        # stays allocated: the next one gets another address
+            else:
+                fh = open(p, encoding="utf-8")
+            released.add(id(fh))
+            return fh
+
+        def burst(p):
+            """the first file is read through several handles that are open at the same time and released together"""
+            hs = [open(p, encoding="utf-8") for _ in range(16)]
+            for fh in hs:
+                run(parse_file, fh)
+                released.add(id(fh))
+                fh.close()
+
+        def via_with(j):
+            with reopen(paths[j]) as fh:
+                return run(parse_file, fh)
+
+        def via_keep(j):
+            kept.append(open(paths[j], encoding="utf-8"))
+            return run(parse_file, kept[-1])
+
+        one = open(os.path.join(tmp, "one.txt"), "w+", encoding="utf-8", newline="")
+        kept.append(one)
+
+        def via_rewind(j):
+            one.seek(0)
+            one.truncate()
+            one.write(texts[j])
+            one.flush()
+            one.seek(0)
+            return run(parse_file, one)
+        how = {"with": via_with, "drop": lambda j: run(parse_file, reopen(paths[j])), "keep": via_keep,
+               "stringio": lambda j: run(parse_file, io.StringIO(texts[j])), "rewind": via_rewind,
+               "path": lambda j: run(parse_file, paths[j])}
+        if mode in ("with", "drop", "mixed"):
+            burst(paths[0])
+        for j, t in enumerate(texts):
+            m = ["path", "drop", "stringio", "with"][j % 4] if mode == "mixed" else mode
+            want = run(parse_string, t if m in ("stringio", "rewind") else content[j])
+            got = how[m](j)
+            if got != want:
+                return [{"kind": "handles", "text": t, "texts": texts, "mode": mode, "expected": want, "observed": got,
+                         "what": f"file {j + 1} of {len(texts)} read one after the other through open handles ({m}) does not parse like "
+                                 "its content (the answer belongs to an earlier handle)",
+                         "snippet": HANDLES_PROGRAM % {"dialect": dialect, "texts": texts, "mode": mode}}]
+        return []
+    finally:
+        for fh in kept:
+            fh.close()
+        shutil.rmtree(tmp, ignore_errors=True)
 
 
 def main(dialect):
@@ -217,4 +337,6 @@ def main(dialect):
                     os.unlink(path)
                 for q in own.values():
                     os.unlink(q)
+        elif k == "handles":
+            fails += handles_case(c, dialect, parse_string, parse_file, run)
     json.dump({"failures": fails, "checked": checked}, sys.stdout)
